@@ -59,7 +59,8 @@ RULE = ('cases (source, pipeline, action): source = parallelize(xs, n) with len 
         'single-pass action; histories: 2-3 actions in sequence on ONE dataset object of an uncached lineage (same action '
         'twice, two members of the stats family, an action after take/first/isEmpty), every per-action log judged; '
         'pair block: keyBy / map-to-pairs, mapValues, flatMapValues, sampleByKey (real per-key samplers, fractions missing '
-        'keys) downstream of counted functions; configuration slice: 60/900 cases per action kind re-run with DEBUG logging '
+        'keys) downstream of counted functions, followed by keys() / values() projections; save block: saveAsTextFile / '
+        'saveAsPickleFile to targets with and without codec suffix (.gz .bz2 .lzma .xz .zip) on 1 and several partitions; configuration slice: 60/900 cases per action kind re-run with DEBUG logging '
         'enabled; API sweep (extra_checks): every public transformation defined downstream of counted functions; exhausted '
         'block: first / isEmpty / take(n) on ONE partition (parallelize default and numSlices=1) and on several whose '
         'pipeline yields nothing or fewer than n; non-trivial = at least one logged user-function call and >= 1 '
@@ -78,11 +79,14 @@ ASSUMPTIONS = [
 TRUSTED = ['py/c06.py wrappers (logging; int/str/tuple/list subclasses as partition tags; None and False are attributed '
            'to the partition of the tagged element seen last)', 'encoding of None, \'\', False, (), [] as codes 100001..100005', 'function library pairs py/c06.py <-> coq/Run/C06_run.v']
 
-MAP, FILTER, FLATMAP, SAMPLE, PERSIST, EAGER, GENSUM, CACHE, KEYBY, MAPVALUES, FLATMAPVALUES, SAMPLEBYKEY = range(12)
+MAP, FILTER, FLATMAP, SAMPLE, PERSIST, EAGER, GENSUM, CACHE, KEYBY, MAPVALUES, FLATMAPVALUES, SAMPLEBYKEY, \
+    KEYS, VALUES = range(14)
 KIND_NAMES = ['map', 'filter', 'flatMap', 'sample', 'persist', 'mapPartitions', 'genSum', 'cache',
-              'keyBy', 'mapValues', 'flatMapValues', 'sampleByKey']
+              'keyBy', 'mapValues', 'flatMapValues', 'sampleByKey', 'keys', 'values']
 ELEMENTWISE = (MAP, FILTER, FLATMAP, SAMPLE, KEYBY, MAPVALUES, FLATMAPVALUES, SAMPLEBYKEY)
-PAIR_STAGES = (MAPVALUES, FLATMAPVALUES, SAMPLEBYKEY)
+PAIR_STAGES = (MAPVALUES, FLATMAPVALUES, SAMPLEBYKEY, KEYS, VALUES)
+# codec suffixes of saveAsTextFile / saveAsPickleFile targets: (A_SAVE, suffix index, 0 text | 1 pickle, 0)
+SUFFIXES = ['', '.gz', '.bz2', '.lzma', '.xz', '.zip']
 
 A_COLLECT, A_COUNT, A_SUM, A_REDUCE, A_FOLD, A_AGGREGATE, A_FOREACH, A_COUNTBYVALUE, A_STATS, A_SAVE, \
     A_TAKE, A_FIRST, A_ISEMPTY, A_HISTORY = range(14)
@@ -121,7 +125,7 @@ def unpair(c):
 class E(int):
     """An int that remembers the partition it was read from."""
 
-    def __new__(cls, v, pid):
+    def __new__(cls, v, pid=-1):
         o = int.__new__(cls, v)
         o.pid = pid
         return o
@@ -154,7 +158,7 @@ def obj(c, pid):
         k, v = unpair(c)
         val = E(v, pid)
         val.key = k          # lets the function of mapValues / flatMapValues (which only sees the value) log the pair
-        o = ETup((k, val))
+        o = ETup((E(k, pid), val))
     elif c == STR:
         o = EStr('')
     elif c == TUP:
@@ -347,7 +351,7 @@ def define_stage(R, rdd, s, k, c, flag):
         def w(x):
             R.rec(s, R.pid(x), x)
             x.key = f(enc(x))
-            return x.key
+            return E(x.key, R.pid(x))      # a tagged key, so that keys() yields elements that know their partition
         return rdd.keyBy(w)
     if k == MAPVALUES:
         f = VF[c]
@@ -381,6 +385,10 @@ def define_stage(R, rdd, s, k, c, flag):
                 return orig(x, rng, numpy_rng)
             r.sampler = wr
         return r
+    if k == KEYS:
+        return rdd.keys()
+    if k == VALUES:
+        return rdd.values()
     if k == PERSIST:
         return rdd.persist()
     if k == CACHE:
@@ -458,10 +466,16 @@ def run_action(R, rdd, sa, action):
         base = os.path.join(os.environ.get('VERIF_ROOT', '/verif'), '.work')
         os.makedirs(base, exist_ok=True)
         d = tempfile.mkdtemp(prefix='c06_', dir=base)
+        text = {'None': NONE, '': STR, 'False': FALSE, '()': TUP, '[]': LST}
         try:
-            path = os.path.join(d, 'out')
+            path = os.path.join(d, 'out' + SUFFIXES[a1])
+            if a2 == 1:
+                rdd.saveAsPickleFile(path)
+                return [enc(x) for x in pysparkling.Context().pickleFile(path).collect()]
             rdd.saveAsTextFile(path)
-            if os.path.isdir(path):
+            if a1:
+                lines = pysparkling.Context().textFile(path).collect()      # read back through the codec
+            elif os.path.isdir(path):
                 names = sorted(n for n in os.listdir(path) if n.startswith('part-'))
                 lines = []
                 for n in names:
@@ -470,7 +484,6 @@ def run_action(R, rdd, sa, action):
             else:
                 with open(path) as f:
                     lines = f.read().split('\n')[:-1]
-            text = {'None': NONE, '': STR, 'False': FALSE, '()': TUP, '[]': LST}
             return [text[l] if l in text else int(l) for l in lines]
         finally:
             shutil.rmtree(d, ignore_errors=True)
@@ -557,6 +570,10 @@ def plain_stage(k, c, xs):
         return [y for x in xs for y in flatmapvalues_code(c)(x)]
     if k == SAMPLEBYKEY:
         return [x for x in xs for _ in range(samplebykey_code(c)(x))]
+    if k == KEYS:
+        return [unpair(x)[0] if ispair(x) else x for x in xs]
+    if k == VALUES:
+        return [unpair(x)[1] if ispair(x) else x for x in xs]
     if k in (PERSIST, CACHE):
         return list(xs)
     if k == EAGER:
@@ -799,14 +816,16 @@ def single_actions(rng, src, stages, every_reducer=False):
     singles = [(A_COLLECT, 0, 0, 0), (A_COUNT, 0, 0, 0),
                (A_FOLD, rng.choice([0, 1, -2]), rng.randrange(len(OP)), 0),
                (A_AGGREGATE, rng.choice([0, 3]), rng.randrange(len(OP)), rng.randrange(len(OP))),
-               (A_FOREACH, 0, 0, 0), (A_SAVE, 0, 0, 0)]
+               (A_FOREACH, 0, 0, 0), (A_SAVE, 0, 0, 0), (A_SAVE, rng.randrange(len(SUFFIXES)), 1, 0)]
+    if STR not in outs:
+        singles.append((A_SAVE, rng.randrange(1, len(SUFFIXES)), 0, 0))       # compressed text, read back by textFile
     if not any(len(xs) == 1 and xs[0] in UNTAGGABLE for xs in outs_pp):
         # a one-element partition hands its element itself to the combine step, which runs after the last partition:
         # an untagged None / False could not be attributed there; everywhere else in a partition it can
         ops = range(len(OP)) if every_reducer else [rng.randrange(len(OP))]
         singles.extend((A_REDUCE, o, 0, 0) for o in ops)
     if any(ispair(x) for x in outs):
-        singles = [a for a in singles if a[0] != A_SAVE]      # lines of pairs are not read back
+        singles = [a for a in singles if a[0] != A_SAVE or a[2] == 1]      # lines of pairs are not read back as text
     if special <= {NONE, STR, TUP}:
         singles.append((A_COUNTBYVALUE, 0, 0, 0))       # hashable, and no False that would collide with 0
     if not special:
@@ -939,6 +958,17 @@ def generate(rng, tier):
                 for act in [(A_FIRST, 0, 0, 0), (A_ISEMPTY, 0, 0, 0)] + \
                         [(A_TAKE, n, 0, 0) for n in range(0, min(out_len(src, pipe), 3) + 2)]:
                     cases.append((src, pipe, act))
+    # saveAsTextFile / saveAsPickleFile to targets with and without a compression suffix, on 1 and on several partitions,
+    # with empty partitions and with filters that empty partitions: exactly once per element (no probing job)
+    saves = []
+    for src in [(0, [3, 0, 4], 1), (0, [3, 0, 4, 2, 7], 3), (0, [1, 2], 4), (1, [[], [5, 6], []], 0), (0, [], 2), (0, [NONE, 1], 2)]:
+        for pipe in ([], [(MAP, 0, 0)], [(FILTER, 0, 0)], [(MAP, 0, 0), (FILTER, 3, 0)], [(FLATMAP, 1, 0)], [(MAP, 0, 0), (CACHE, 0, 0)]):
+            for suf in range(len(SUFFIXES)):
+                for pk in (0, 1):
+                    if pk == 0 and suf and STR in out_values(src, pipe):
+                        continue
+                    saves.append((src, list(pipe), (A_SAVE, suf, pk, 0)))
+    cases.extend(rng.sample(saves, 150) if quick else saves)
     # pair datasets: keyBy / map-to-pairs, mapValues, flatMapValues and per-key sampling (the real per-key samplers, also
     # with fractions that miss some keys) defined DOWNSTREAM of stages carrying user functions
     pairs = []
@@ -951,8 +981,8 @@ def generate(rng, tier):
             for tp in to_pairs:
                 for op in on_pairs:
                     for sm in samplers:
-                        for down in ([], [(MAPVALUES, 0, 0)]):
-                            if not sm and down:
+                        for down in ([], [(MAPVALUES, 0, 0)], [(KEYS, 0, 0)], [(VALUES, 0, 0)], [(KEYS, 0, 0), (MAP, 0, 0)]):
+                            if not sm and down == [(MAPVALUES, 0, 0)]:
                                 continue
                             pipe = list(up) + tp + op + sm + down
                             if out_len(src, pipe) > 40:
@@ -960,10 +990,11 @@ def generate(rng, tier):
                             for act in single_actions(rng, src, pipe) + [(A_TAKE, 2, 0, 0), (A_FIRST, 0, 0, 0), (A_ISEMPTY, 0, 0, 0)]:
                                 pairs.append((src, pipe, act))
     if quick:
-        keep = [c for c in pairs if c[2][0] == A_COLLECT and c[0][2] == 2 and len(c[1]) == 3 and c[1][-1][0] == SAMPLEBYKEY]
-        pairs = keep + rng.sample(pairs, 600)
+        keep = [c for c in pairs if c[2][0] == A_COLLECT and c[0][2] == 2 and len(c[1]) == 3
+                and c[1][-1][0] in (SAMPLEBYKEY, KEYS, VALUES)]
+        pairs = keep + rng.sample(pairs, 700)
     else:
-        pairs = rng.sample(pairs, 12000)
+        pairs = rng.sample(pairs, 14000)
     cases.extend(pairs)
     # histories: several actions on ONE dataset object (uncached lineages)
     n_hist = 300 if quick else 6000
